@@ -123,3 +123,68 @@ pub fn cmd_ciphers(args: &[String]) -> i32 {
     eprintln!("sweep-ciphers: {} present, {} absent, {} name queries", present, absent, qs.len());
     0
 }
+
+fn rle_strings(it: impl Iterator<Item = String>) -> Value {
+    let mut out: Vec<(String, u32)> = Vec::new();
+    for c in it {
+        match out.last_mut() {
+            Some((l, n)) if *l == c => *n += 1,
+            _ => out.push((c, 1)),
+        }
+    }
+    Value::Array(out.into_iter().map(|(c, n)| json!([c, n])).collect())
+}
+
+fn ext_code(o: &calls::Out, ty: u32, plen: usize, tagparser: bool) -> String {
+    let r = &o.res;
+    match r["k"].as_str().unwrap_or("") {
+        "ok" => {
+            let v = &r["v"];
+            let t = v["t"].as_str().unwrap_or("");
+            let consumed_ok = r["p"].as_u64() == Some(4 + plen as u64);
+            let data_ok = v["data"]["l"].as_u64() == Some(plen as u64) && (plen == 0 || v["data"]["o"].as_i64() == Some(4));
+            let bang = |ok: bool| if ok && consumed_ok { "" } else { "!" };
+            match t {
+                "Unknown" => format!("U{}", bang(v["ty"].as_u64() == Some(ty as u64) && v["tag"].as_u64() == Some(ty as u64) && data_ok)),
+                "Grease" => format!("G{}", bang(v["ty"].as_u64() == Some(ty as u64) && v["tag"].as_u64() == Some(0xfafa) && data_ok)),
+                _ => format!("T{}:{}", bang(v["tag"].as_u64() == Some(ty as u64)), t),
+            }
+        }
+        "err" | "fail" if tagparser && r["e"] == "Tag" => "E:Tag".to_string(),
+        "panic" => "P".to_string(),
+        _ => "E".to_string(),
+    }
+}
+
+/// sweep-ext <out.ndjson>: all 65536 extension types through the three dispatchers (two payloads) and as the
+/// leading type of each of the 16 tag-specific parsers; outcome codes, run-length encoded.
+pub fn cmd_ext(args: &[String]) -> i32 {
+    let mut out = BufWriter::new(std::fs::File::create(&args[0]).expect("create"));
+    let a = Args::default();
+    let disp = [("client", "parse_tls_client_hello_extension"), ("server", "parse_tls_server_hello_extension"), ("generic", "parse_tls_extension")];
+    for (which, name) in disp {
+        for payload in [vec![], vec![0u8]] {
+            let codes = (0..=65535u32).map(|ty| {
+                let mut input = vec![(ty >> 8) as u8, ty as u8, 0, payload.len() as u8];
+                input.extend_from_slice(&payload);
+                ext_code(&calls::call(name, &a, &input).unwrap(), ty, payload.len(), false)
+            });
+            writeln!(out, "{}", json!({"kind": "dispatch", "which": which, "plen": payload.len(), "rle": rle_strings(codes)})).unwrap();
+        }
+    }
+    let tagp = [(0u32, "parse_tls_extension_sni"), (1, "parse_tls_extension_max_fragment_length"), (5, "parse_tls_extension_status_request"),
+        (10, "parse_tls_extension_elliptic_curves"), (11, "parse_tls_extension_ec_point_formats"), (13, "parse_tls_extension_signature_algorithms"),
+        (15, "parse_tls_extension_heartbeat"), (22, "parse_tls_extension_encrypt_then_mac"), (23, "parse_tls_extension_extended_master_secret"),
+        (35, "parse_tls_extension_session_ticket"), (41, "parse_tls_extension_pre_shared_key"), (42, "parse_tls_extension_early_data"),
+        (43, "parse_tls_extension_supported_versions"), (44, "parse_tls_extension_cookie"), (45, "parse_tls_extension_psk_key_exchange_modes"),
+        (51, "parse_tls_extension_key_share")];
+    for (own, name) in tagp {
+        let codes = (0..=65535u32).map(|ty| {
+            let input = vec![(ty >> 8) as u8, ty as u8, 0, 1, 0];
+            ext_code(&calls::call(name, &a, &input).unwrap(), ty, 1, true)
+        });
+        writeln!(out, "{}", json!({"kind": "tag", "own": own, "fn": name, "rle": rle_strings(codes)})).unwrap();
+    }
+    out.flush().unwrap();
+    0
+}
